@@ -150,6 +150,10 @@ def connect(path: StrPath, *, read_only: bool = False, **kwargs: Any) -> sqlite3
     con = sqlite3.connect(path, **kwargs)
     con.isolation_level = None
     con.execute("PRAGMA foreign_keys = ON")
+    # LIKE ignores the case of ASCII letters by default, but paths are case-sensitive:
+    # without this, `prefix_clause("label", "data/")` would also select `Data/x`.
+    # This is a per-connection setting, so it must be set on every connection.
+    con.execute("PRAGMA case_sensitive_like = ON")
     if not read_only:
         # The auto_vacuum pragma must come first.
         # As of SQLite 3.51, setting the journal mode of a new database writes its header,
